@@ -25,6 +25,11 @@ What is EXPLORED, not proved (ctx.explored)
   * click (option parsing, IntRange, FLOAT, Path), Python's float()/int()/ast.literal_eval/re, the OS and the file
     system are OUTSIDE the model: they appear as tokens computed by the harness with the same stdlib functions.
   * incompatible model combinations (exceptions inside the simulation) are outside the property and not generated.
+  * the model's `log=1` is "an ERROR record is handed to the qecsim.cli logger"; whether that record REACHES the user is
+    decided by Python's logging state, which the documented `logging_qecsim.ini` feature and the call history
+    (loggers created at import, init_logging run at every CLI entry, a host's own logging set-up) change: part (e)
+    runs failing writes in real processes over those configurations / histories and looks for the record (JSON equal
+    to the API result) in the sink the configuration designates (stdout / stderr / a log file).
 The tie model <-> code: (a) the real `convert` callback called directly over all registered names x argument
 spellings, observed with recording wrappers around re.fullmatch, ast.literal_eval and the registered constructors;
 (b) the real click commands invoked in-process with app.run/app.run_ftp replaced by a recording sentinel (it records
@@ -75,7 +80,10 @@ RULE = ('(a) every name registered in the installed entry points (run: codes, er
         'TIME_STEPS, through the real click commands AND through the real click parameter alone against the model '
         'validators (c19 prob / c19 int), with the monitor exit 2 / no traceback / no simulation call / earlier results '
         'not lost; merge with missing / directory / bad-JSON / good inputs; (c) CLI vs API differential on real runs for '
-        'every compatible registered (code, error model, decoder) combination, fixed seed, plus real subprocesses. '
+        'every compatible registered (code, error model, decoder) combination, fixed seed, plus real subprocesses; '
+        '(e) failing writes in real processes under every class of user logging configuration (logging_qecsim.ini: '
+        'location x content x failing target x command) and call history (CLI entered once / twice in one interpreter, '
+        'after API use, inside a host with its own logging): the recovered-data record must reach the configured sink. '
         'non-trivial = a spec with an argument list or a malformed spec; a command line with an invalid parameter, '
         'a non-stdout target or more than one probability')
 
@@ -1630,6 +1638,328 @@ def part_d(ctx, tmp):
     return n
 
 
+# --------------------------------------------------------------- user logging configurations x call histories
+
+# `logging_qecsim.ini` is a documented CLI feature (util.init_logging: $QECSIM_CFG/, ./, ~/.qecsim/); the property's
+# "results are still emitted on the error log" is quantified over every such configuration that lets ERROR records of
+# the package through: the record must arrive at the sink the configuration designates for it.
+_INI_HEAD = """\
+[loggers]
+keys = {loggers}
+
+[handlers]
+keys = h
+
+[formatters]
+keys = f
+
+[logger_root]
+level = {root_level}
+handlers = h
+"""
+_INI_TAIL = """
+[handler_h]
+class = {hclass}
+level = {hlevel}
+formatter = f
+args = {hargs}
+
+[formatter_f]
+format = {fmt}
+"""
+_SAMPLE_INI = """\
+[loggers]
+keys = root
+
+[handlers]
+keys = stream_handler
+
+[formatters]
+keys = formatter
+
+[logger_root]
+level = INFO
+handlers = stream_handler
+
+[handler_stream_handler]
+class = StreamHandler
+level = INFO
+formatter = formatter
+args = (sys.stdout,)
+
+[formatter_formatter]
+format = %(asctime)s %(name)-12s %(levelname)-8s %(message)s
+"""
+LOGCFG_CONTENTS = ['sample', 'root-stderr', 'root-file', 'root-error-level', 'named-qecsim', 'named-cli',
+                   'named-unrelated', 'broken']
+LOGCFG_LOCATIONS = ['env', 'cwd', 'home']
+LOGCFG_TARGETS = ['existing-file', 'missing-dir', 'existing-dir']
+LOGCFG_COMMANDS = ['run', 'run-ftp', 'merge']
+# call histories: how the process got to the failing write
+#   cli          one `python -m qecsim` / `qecsim` process (the module loggers exist before init_logging runs)
+#   twice        one interpreter, the CLI entered twice: a successful stdout command, then the failing one
+#   fail-twice   one interpreter, two failing commands in a row (init_logging applied over its own configuration)
+#   api-first    a host program that used the API (app.run) and then enters the CLI
+#   host-logging a host program that had configured logging itself (basicConfig) before entering the CLI
+LOGCFG_HISTORIES = ['cli', 'twice', 'fail-twice', 'api-first', 'host-logging']
+
+_HISTORY_DRIVER = r'''
+import json, sys
+hist = json.loads(sys.argv[1]); pre = sys.argv[2]
+if pre == 'host-logging':
+    import logging
+    logging.basicConfig(level=logging.INFO)
+if pre == 'api-first':
+    from qecsim import app
+    from qecsim.models.basic import FiveQubitCode
+    from qecsim.models.generic import DepolarizingErrorModel, NaiveDecoder
+    app.run(FiveQubitCode(), DepolarizingErrorModel(), NaiveDecoder(), 0.1, max_runs=2, random_seed=1)
+import click
+from qecsim import cli
+codes = []
+for argv in hist:
+    try:
+        cli.cli.main(argv, standalone_mode=False)
+        codes.append(0)
+    except click.ClickException as ex:
+        ex.show()
+        codes.append(ex.exit_code)
+    except SystemExit as ex:
+        codes.append(ex.code)
+    sys.stdout.flush(); sys.stderr.flush()
+sys.stderr.write('\nQV-EXITS ' + json.dumps(codes) + '\n')
+'''
+
+
+def logcfg_text(content, logfile):
+    """(ini text or None, sink) for a configuration class; sink in stdout / stderr / file"""
+    fmt = '%(asctime)s %(name)-12s %(levelname)-8s %(message)s'
+    if content == 'sample':         # the file shipped in the repository root
+        p = os.path.join(core.REPO, 'logging_qecsim.ini')
+        txt = open(p).read() if os.path.exists(p) else _SAMPLE_INI
+        return txt, ('stdout' if 'sys.stdout' in txt else 'stderr')
+    if content == 'broken':         # unreadable configuration: documented fall-back to the basic configuration
+        return '[loggers]\nkeys = root\n\n[logger_root]\nhandlers = nothing_defined\n', 'stderr'
+    kw = {'loggers': 'root', 'root_level': 'INFO', 'hclass': 'StreamHandler', 'hlevel': 'NOTSET',
+          'hargs': '(sys.stderr,)', 'fmt': fmt}
+    extra, sink = '', 'stderr'
+    if content == 'root-file':
+        kw.update(hclass='FileHandler', hargs="({!r}, 'a')".format(logfile))
+        sink = 'file'
+    elif content == 'root-error-level':
+        kw.update(root_level='ERROR', hlevel='ERROR', fmt='%(levelname)s:%(message)s')
+    elif content == 'named-qecsim':
+        kw['loggers'] = 'root, q'
+        extra = '\n[logger_q]\nlevel = DEBUG\nhandlers =\nqualname = qecsim\npropagate = 1\n'
+    elif content == 'named-cli':
+        kw['loggers'] = 'root, q'
+        extra = '\n[logger_q]\nlevel = WARNING\nhandlers = h\nqualname = qecsim.cli\npropagate = 0\n'
+    elif content == 'named-unrelated':
+        kw['loggers'] = 'root, q'
+        extra = '\n[logger_q]\nlevel = WARNING\nhandlers =\nqualname = some.other.package\npropagate = 1\n'
+    return _INI_HEAD.format(**kw) + extra + _INI_TAIL.format(**kw), sink
+
+
+_LOGCFG_RCS = {
+    'run': {'kind': 'diff', 'cmd': 'run', 'code': 'five_qubit', 'em': 'generic.depolarizing', 'dec': 'generic.naive',
+            'probs': ['0.2', '0.4'], 'r': 5, 'f': None, 's': 11, 'ts': None, 'm': None},
+    'run-ftp': {'kind': 'diff', 'cmd': 'run-ftp', 'code': 'rotated_planar(3,3)', 'em': 'generic.depolarizing',
+                'dec': 'rotated_planar.smwpm', 'probs': ['0.1'], 'r': 3, 'f': None, 's': 12, 'ts': 2, 'm': 0.05},
+}
+_LOGCFG_WANT = {}
+
+
+def logcfg_want(cmd):
+    """API result (wall_time stripped) and, for merge, the input documents"""
+    if cmd not in _LOGCFG_WANT:
+        from qecsim import app
+        if cmd == 'merge':
+            a = json.loads(json.dumps(api_call(_LOGCFG_RCS['run'], classes_for('run')), sort_keys=True))
+            b = json.loads(json.dumps(api_call(dict(_LOGCFG_RCS['run'], s=13), classes_for('run')), sort_keys=True))
+            _LOGCFG_WANT[cmd] = (strip_wall(json.loads(json.dumps(app.merge(a, b), sort_keys=True))), [a, b])
+        else:
+            rc = _LOGCFG_RCS[cmd]
+            _LOGCFG_WANT[cmd] = (strip_wall(json.loads(json.dumps(api_call(rc, classes_for(cmd)), sort_keys=True))),
+                                 None)
+    return _LOGCFG_WANT[cmd]
+
+
+def logcfg_start(job, base):
+    """set the scene (configuration file, target, inputs) in a fresh directory and start the process"""
+    d = tempfile.mkdtemp(prefix='lc_', dir=base)
+    work = os.path.join(d, 'work')
+    home = os.path.join(d, 'home')
+    os.makedirs(work)
+    os.makedirs(home)
+    logfile = os.path.join(d, 'qecsim.log')
+    text, sink = logcfg_text(job['content'], logfile)
+    env = sub_env()
+    env['HOME'] = home                      # ~/.qecsim is looked up under a scratch home in every case
+    if job['location'] == 'env':
+        cfgdir = os.path.join(d, 'cfg')
+        env['QECSIM_CFG'] = cfgdir
+    elif job['location'] == 'cwd':
+        cfgdir = work
+    elif job['location'] == 'home':
+        cfgdir = os.path.join(home, '.qecsim')
+    else:                                   # 'none': no user configuration (control)
+        cfgdir, text, sink = None, None, 'stderr'
+    if cfgdir is not None:
+        os.makedirs(cfgdir, exist_ok=True)
+        with open(os.path.join(cfgdir, 'logging_qecsim.ini'), 'w') as f:
+            f.write(text)
+    if job['target'] == 'existing-file':
+        target = os.path.join(work, 'out.json')
+        with open(target, 'w') as f:
+            f.write('PRECIOUS\n')
+    elif job['target'] == 'existing-dir':
+        target = os.path.join(work, 'outdir')
+        os.makedirs(os.path.join(target, 'inner'))
+    else:
+        target = os.path.join(work, 'no', 'such', 'out.json')
+    want, docs = logcfg_want(job['cmd'])
+    if job['cmd'] == 'merge':
+        ins = []
+        for i, doc in enumerate(docs):
+            p = os.path.join(work, 'in{}.json'.format(i))
+            with open(p, 'w') as f:
+                json.dump(doc, f, sort_keys=True)
+            ins.append(p)
+        ok_argv, bad_argv = ['merge'] + ins, ['merge', '-o', target] + ins
+    else:
+        rc = _LOGCFG_RCS[job['cmd']]
+        ok_argv, bad_argv = diff_argv(rc), diff_argv(rc, target)
+    hist = {'cli': [bad_argv], 'twice': [ok_argv, bad_argv], 'fail-twice': [bad_argv, bad_argv],
+            'api-first': [bad_argv], 'host-logging': [bad_argv]}[job['history']]
+    if job['history'] == 'cli':
+        cmdline = launcher(job.get('launcher', 'module')) + bad_argv
+    else:
+        cmdline = [sys.executable, '-c', _HISTORY_DRIVER, json.dumps(hist), job['history']]
+    before = snapshot(target)
+    proc = subprocess.Popen(cmdline, env=env, cwd=work, stdout=subprocess.PIPE, stderr=subprocess.PIPE, text=True)
+    return {'dir': d, 'proc': proc, 'sink': sink, 'logfile': logfile, 'target': target, 'before': before,
+            'hist': hist, 'want': want, 'argv': bad_argv}
+
+
+def logcfg_finish(job, st):
+    """the property on one finished process; returns (problem or None, details)"""
+    p = st['proc']
+    try:
+        so, se = p.communicate(timeout=300)
+    except subprocess.TimeoutExpired:
+        p.kill()
+        raise core.Infra('subprocess timeout: logging configuration case {}'.format(job))
+    try:
+        logtxt = open(st['logfile']).read()
+    except OSError:
+        logtxt = ''
+    n_fail = sum(1 for a in st['hist'] if '-o' in a)
+    n_ok = len(st['hist']) - n_fail
+    if job['history'] == 'cli':
+        exits = [p.returncode]
+    else:
+        exits = None
+        for l in se.splitlines():
+            if l.startswith('QV-EXITS '):
+                exits = json.loads(l[len('QV-EXITS '):])
+    sink_text = {'stdout': so, 'stderr': se, 'file': logtxt}[st['sink']]
+    lines = sink_text.splitlines()
+    recovered = []
+    for i, l in enumerate(lines):
+        if 'recovered data:' in l and i + 1 < len(lines):
+            try:
+                recovered.append(strip_wall(json.loads(lines[i + 1])))
+            except (ValueError, TypeError, AttributeError):
+                recovered.append('unparsable')
+    problems = []
+    if ('Traceback' in se or 'Traceback' in so) and job['content'] != 'broken':
+        problems.append('traceback')    # (the documented noisy fall-back logs the configuration error's traceback)
+    if exits is None or len(exits) != len(st['hist']):
+        problems.append('the process did not complete its commands (exit {})'.format(p.returncode))
+    else:
+        for a, e in zip(st['hist'], exits):
+            if '-o' in a and e in (0, None):
+                problems.append('exit status 0 although the output could not be written')
+            if '-o' not in a and e != 0:
+                problems.append('stdout command fails (exit {})'.format(e))
+    changes = [c for c in snapshot_diff(st['before'], snapshot(st['target'])) if not c.startswith('ancestor')]
+    if changes:
+        problems.append('output path modified: ' + '; '.join(changes))
+    if len(recovered) < n_fail:
+        problems.append('results NOT emitted on the error log: {} "recovered data" record(s) in the sink the logging '
+                        'configuration designates ({}) for {} failed write(s) - results lost'.format(
+                            len(recovered), st['sink'], n_fail))
+    elif any(r != st['want'] for r in recovered):
+        problems.append('results on the error log differ from the API result')
+    if n_ok:
+        try:
+            first = so.splitlines()[0] if st['sink'] != 'stdout' else \
+                next(l for l in so.splitlines() if l.startswith('[{'))
+            if strip_wall(json.loads(first)) != st['want']:
+                problems.append('stdout result differs from the API result')
+        except (ValueError, IndexError, StopIteration):
+            problems.append('stdout result missing / unparsable')
+    details = {'exit': p.returncode, 'exits': exits, 'sink': st['sink'], 'stdout': so[-300:], 'stderr': se[-500:],
+               'logfile': logtxt[-300:], 'argv': st['argv']}
+    shutil.rmtree(st['dir'], ignore_errors=True)
+    return ('; '.join(problems) or None), details
+
+
+def logcfg_run(jobs, base, width=8):
+    out = []
+    for i in range(0, len(jobs), width):
+        batch = [(j, logcfg_start(j, base)) for j in jobs[i:i + width]]
+        out += [(j,) + logcfg_finish(j, st) for j, st in batch]
+    return out
+
+
+def logcfg_jobs(ctx):
+    rng = ctx.rng
+    jobs = []
+
+    def job(content, location, target, cmd, history):
+        j = {'kind': 'logcfg', 'content': content, 'location': location, 'target': target, 'cmd': cmd,
+             'history': history, 'launcher': rng.choice(['module', 'script'])}
+        if j not in jobs:
+            jobs.append(j)
+    if ctx.quick():
+        # every configuration class once, locations / targets / commands rotated from a random offset; every history
+        o = rng.randrange(60)
+        for i, c in enumerate(LOGCFG_CONTENTS):
+            job(c, LOGCFG_LOCATIONS[(o + i) % 3], LOGCFG_TARGETS[(o // 3 + i) % 3],
+                LOGCFG_COMMANDS[(o // 9 + i) % 3], 'cli')
+        for i, h in enumerate(LOGCFG_HISTORIES[1:]):
+            job(rng.choice(LOGCFG_CONTENTS[:-1]), LOGCFG_LOCATIONS[(o + i) % 3], rng.choice(LOGCFG_TARGETS),
+                rng.choice(LOGCFG_COMMANDS), h)
+        job('sample', 'none', 'existing-file', 'run', 'cli')
+    else:
+        for c in LOGCFG_CONTENTS:
+            for loc in LOGCFG_LOCATIONS:
+                for t in LOGCFG_TARGETS:
+                    job(c, loc, t, rng.choice(LOGCFG_COMMANDS), 'cli')
+            for h in LOGCFG_HISTORIES[1:]:
+                job(c, rng.choice(LOGCFG_LOCATIONS), rng.choice(LOGCFG_TARGETS), rng.choice(LOGCFG_COMMANDS), h)
+        for t in LOGCFG_TARGETS:
+            for cmd in LOGCFG_COMMANDS:
+                job('sample', 'none', t, cmd, 'cli')
+    return jobs
+
+
+def part_e(ctx, tmp):
+    """failing writes under user logging configurations and call histories (real processes)"""
+    base = os.path.join(tmp, 'logcfg')
+    os.makedirs(base)
+    jobs = logcfg_jobs(ctx)
+    for j, problem, details in logcfg_run(jobs, base):
+        ctx.count('logcfg', '{}/{}/{}'.format(j['content'], j['location'], j['history']))
+        ctx.count('logcfg-sink', details['sink'])
+        if problem:
+            ctx.monitor_fail('user logging configuration ({} at {}), history {}: {}'.format(
+                j['content'], j['location'], j['history'], problem), dict(j, observed=details),
+                key='results-dropped-logging-config')
+    return len(jobs)
+
+
 # ------------------------------------------------------------------------------------------ driver
 
 def write_file_em(tmp):
@@ -1669,6 +1999,7 @@ def run(ctx):
                 ctx.case('c19 write {} {} 1'.format(t, fs), want, nontrivial=False)
         n_c, n_eq, n_skip, n_rt = part_c(ctx, tmp, file_em)
         n_d = part_d(ctx, tmp)
+        n_e = part_e(ctx, tmp)
         ctx.extra.pop('_file_em', None)
         ctx.explored = {
             'cli_equals_api_differential': {
@@ -1686,6 +2017,16 @@ def run(ctx):
                                   'rule': '`python -m qecsim` and the `qecsim` console script: stdout / -o new / -o '
                                           'existing / -o missing directory / malformed arguments / merge; stdout, '
                                           'stderr, exit status and files inspected', 'exhaustive': False},
+            'logging_configurations': {
+                'evaluations': n_e,
+                'rule': 'real processes whose write fails (existing file / existing directory / missing directory; '
+                        'run, run-ftp, merge) under user logging configurations (logging_qecsim.ini found via '
+                        '$QECSIM_CFG, ./ or ~/.qecsim: the shipped sample, root -> stderr / file / ERROR-only, a '
+                        'configuration naming qecsim / qecsim.cli / an unrelated logger, an unreadable one, none) and '
+                        'call histories (one CLI process; the CLI entered twice in one interpreter after a success / '
+                        'after a failure; after API use; inside a host that configured logging): exit status, target '
+                        'untouched, the "recovered data" record with JSON equal to the API result in the sink the '
+                        'configuration designates', 'exhaustive': False},
         }
         ctx.assumptions = [
             'click (option parsing, IntRange, FLOAT, Path, exit statuses) as installed; Python float() / int() / '
@@ -1697,8 +2038,10 @@ def run(ctx):
             '(exceptions inside the simulation) are outside the property',
             'PlanarYDecoder breaks ties with Python\'s global `random` (unseeded by -s): the differential seeds it '
             'identically before the API call and before the CLI call',
-            'logging configuration (util.init_logging) is replaced by a recording handler in-process; the real stderr '
-            'log is observed in the subprocess cases only',
+            'logging configuration (util.init_logging) is replaced by a recording handler in-process; the real log '
+            '(stderr, or whatever sink a user logging_qecsim.ini designates) is observed in the subprocess cases only; '
+            'configurations that filter ERROR records of the package out on purpose (level CRITICAL, no handler) are '
+            'the user\'s choice and not generated',
         ]
     finally:
         os.chdir(cwd)
@@ -1780,6 +2123,10 @@ def recheck(inp):
             c = C()
             merge_case(c, tmp, 0, inp['files'], inp['situation'], c.rng)
             return '; '.join(c.f) or None
+        if kind == 'logcfg':
+            job = {k: v for k, v in inp.items() if k != 'observed'}
+            (_, problem, _), = logcfg_run([job], tmp)
+            return problem
         if kind == 'subprocess':
             class C2:
                 def __init__(self):
